@@ -61,6 +61,9 @@ class CallMixin:
                         nxt = []
                         for s3, kd in work:
                             for s4, v in self.ev(k.value, s3, cx):
+                                if k.arg is None and isinstance(v, VRec) and isinstance(v.sort, TKDict):
+                                    nxt.append((s4, {**kd, "**": v}))
+                                    continue
                                 if k.arg is None:
                                     if not isinstance(v, VConcDict):
                                         raise Unsupported("** of symbolic dict")
@@ -132,6 +135,8 @@ class CallMixin:
     def call_function(self, f, args, kw, st, cx, node=None):
         if isinstance(f, VType):
             return self.construct(f, args, kw, st, cx, node)
+        if isinstance(f, VOpaque) and isinstance(f.what, TRec) and f.what.cls in self.reg.records:
+            return self.construct_record(f.what.cls, args, kw, st, cx)
         if isinstance(f, VFuncRef):
             k = z3.simplify(f.t)
             if z3.is_int_value(k) and 1 <= k.as_long() <= len(ops_CLOSURES()):
@@ -418,7 +423,46 @@ class CallMixin:
             outs.append((s, obj))
         return outs
 
+    def construct_record_from_kdict(self, qn, kd, st, cx):
+        "C(**d) with d a keyed dict: a key that is not a field (or a missing field without default) is a TypeError"
+        rec = self.reg.records[qn]
+        ci = self.repo.classes().get(qn)
+        names = [f for f, _ in rec.fields]
+        bad = [kd.sort.get(kd.t, "other")]
+        for k in kd.sort.keys:
+            if k not in names:
+                bad.append(kd.sort.get(kd.t, "p_" + k))
+        ts = []
+        for n, so in rec.fields:
+            d = None
+            for fname, ann, dv in (ci.fields if ci else []):
+                if fname == n:
+                    d = dv
+            if n in kd.sort.keys:
+                present = kd.sort.get(kd.t, "p_" + n)
+                val = coerce(mk_val(kd.sort.get(kd.t, "v_" + n), kd.sort.keys[n]), so)
+            else:
+                present = z3.BoolVal(False)
+                val = None
+            if d is None:
+                bad.append(z3.Not(present))
+                ts.append(val.t if val is not None else default_term(so))
+            else:
+                if isinstance(d, ast.Call) and isinstance(d.func, ast.Name) and d.func.id == "field":
+                    dflt = coerce(VTuple([], True), so)
+                else:
+                    dflt = coerce(self.ev1(d, State_with_top(self.top0), Cx(ci.mod, spec=True, acc=[])), so)
+                ts.append(z3.If(present, val.t, dflt.t) if val is not None else dflt.t)
+        ok, err = self.fork(st, z3.Not(z3.Or(*bad)))
+        if err is not None and not cx.spec:
+            self.raise_(cx, err, "builtins.TypeError")
+        return [(ok, VRec(rec.mk(*ts), rec))] if ok is not None else []
+
     def construct_record(self, qn, args, kw, st, cx):
+        if "**" in kw:
+            if args or len(kw) > 1:
+                raise Unsupported("record construction mixing ** with other arguments")
+            return self.construct_record_from_kdict(qn, kw["**"], st, cx)
         rec = self.reg.records[qn]
         ci = self.repo.classes().get(qn)
         names = [f for f, _ in rec.fields]
@@ -560,7 +604,10 @@ class CallMixin:
         st = normal
         self.havoc(st, c, cx)
         res = VNone()
-        if c.result is not None:
+        if c.result is not None and c.pure_fn:
+            res = self.call_unint(c.pure_fn, [env[n] for n in names], st)
+            self.assume_wf(st, res, nullable=True)
+        elif c.result is not None:
             if c.fresh_result:
                 res = self.alloc(st, c.result.cls)
                 res = VRef(res.t, c.result.cls)
